@@ -6,6 +6,7 @@ import (
 	"context"
 	"encoding/json"
 	"errors"
+	"net/http"
 	"strings"
 
 	jsonrpc "github.com/filecoin-project/go-jsonrpc"
@@ -51,6 +52,8 @@ func (h *H) Boom(a int) (int, error) {
 	case 8:
 		var n *named
 		panic(n) // a payload whose String method itself panics
+	case 9:
+		panic(http.ErrAbortHandler) // a sentinel some recover middlewares treat specially
 	}
 	return 0, nil
 }
@@ -83,7 +86,7 @@ func call(srv *jsonrpc.RPCServer, method string, id interface{}, x int64) (reply
 
 // HarnessPanicHTTP: every panic payload kind, request/notification; then a healthy call.
 func HarnessPanicHTTP() {
-	h := &H{kind: verif.Choice("kind", 9), msg: verif.String("msg", 3)}
+	h := &H{kind: verif.Choice("kind", 10), msg: verif.String("msg", 3)}
 	srv := jsonrpc.NewServer()
 	srv.Register("H", h)
 	x := verif.Int("x")
@@ -229,7 +232,7 @@ func (h *WH) Sub(ctx context.Context) (<-chan int, error) {
 // HarnessPanicWS: over WebSocket, with a sibling call and a sibling stream in
 // flight, a panicking handler fails only its own call.
 func HarnessPanicWS() {
-	h := &WH{H: H{kind: verif.Choice("kind", 9), msg: verif.String("msg", 2)}, release: make(chan struct{})}
+	h := &WH{H: H{kind: verif.Choice("kind", 10), msg: verif.String("msg", 2)}, release: make(chan struct{})}
 	srv := jsonrpc.NewServer()
 	srv.Register("H", h)
 	url, stop := verif.ServeWS(srv)
